@@ -831,3 +831,14 @@ func RunCLI(dir string, timeout time.Duration, args ...string) (int, string, str
 func CrashText(s string) bool {
 	return strings.Contains(s, "panic: ") || strings.Contains(s, "fatal error: ") || strings.Contains(s, "goroutine 1 [") || strings.Contains(s, "[recovered]")
 }
+
+var knownOnce sync.Once
+var knownCache KnownFile
+
+// IsKnownSig reports whether (property, signature) is a listed known finding. Checks use it to look
+// past a known problem for further, unlisted ones in the same case (the known one is still reported
+// when nothing else is wrong).
+func IsKnownSig(prop, sig string) bool {
+	knownOnce.Do(func() { knownCache = loadKnown() })
+	return matchKnown(knownCache, prop, sig) != nil
+}
